@@ -120,6 +120,11 @@ Fixpoint alast {V} (k : skey) (l : kmap V) : option V :=
 Definition obj_or_null (j : json) : bool :=
   match j with JObj _ => true | JNull => true | _ => false end.
 
+(* which decoding the source tree has: false = the whole signatures object is decoded (every entry
+   must be an object or null), true = only the entry of the named entity is (repair made for C06);
+   tied to the source by Gen/GenC12.v (C12_constants_match_source) *)
+Definition signatures_per_entry : bool := false.
+
 Definition list_key_ids (server msg : bytes) : option (list bytes) :=
   match parse_json msg with
   | None => None
@@ -129,10 +134,12 @@ Definition list_key_ids (server msg : bytes) : option (list bytes) :=
       | None => Some []
       | Some JNull => Some []
       | Some (JObj sigs) =>
-          if forallb (fun kv => obj_or_null (snd kv)) sigs then
+          if signatures_per_entry || forallb (fun kv => obj_or_null (snd kv)) sigs then
             match assoc_last server sigs with
             | Some (JObj ks) => Some (map fst ks)
-            | _ => Some []
+            | Some JNull => Some []
+            | None => Some []
+            | Some _ => None
             end
           else None
       | Some _ => None
